@@ -271,7 +271,7 @@ func (ds *decryptStream) processBlock(ciphertext []byte, authenticators []payloa
 	// Check the authenticator.
 	hashToAuthenticate := computePayloadHash(ds.version, ds.headerHash, nonce, ciphertext, isFinal)
 	ourAuthenticator := computePayloadAuthenticator(ds.macKey, hashToAuthenticate)
-	if !ourAuthenticator.Equal(authenticators[ds.position]) {
+	if ds.position >= len(authenticators) || !ourAuthenticator.Equal(authenticators[ds.position]) {
 		return nil, ErrBadTag(seqno)
 	}
 
